@@ -170,7 +170,7 @@ fn payload(id: u32, len: usize) -> Vec<u8> {
     v
 }
 
-fn gen_plan(ch: &mut Choices, mode: &str, thorough: bool) -> Plan {
+pub fn gen_plan(ch: &mut Choices, mode: &str, thorough: bool) -> Plan {
     let c11 = mode == "C11";
     let sep: &'static [u8] = match ch.weighted(&[6, 2, 2]) {
         0 => b"\n",
